@@ -4,6 +4,7 @@ import (
 	"bytes"
 	"crypto/x509"
 	"encoding/pem"
+	"errors"
 	"fmt"
 	"time"
 
@@ -12,7 +13,8 @@ import (
 	"verif/harness/sim"
 )
 
-var c15VerifyEKU = [][]x509.ExtKeyUsage{{x509.ExtKeyUsageAny}, nil, {x509.ExtKeyUsageClientAuth}, {x509.ExtKeyUsageServerAuth, x509.ExtKeyUsageClientAuth}, {x509.ExtKeyUsageCodeSigning, x509.ExtKeyUsageAny}}
+var c15VerifyEKU = [][]x509.ExtKeyUsage{{x509.ExtKeyUsageAny}, nil, {x509.ExtKeyUsageClientAuth}, {x509.ExtKeyUsageServerAuth, x509.ExtKeyUsageClientAuth}, {x509.ExtKeyUsageCodeSigning, x509.ExtKeyUsageAny},
+	{x509.ExtKeyUsageServerAuth}, {x509.ExtKeyUsageCodeSigning}, {x509.ExtKeyUsageEmailProtection, x509.ExtKeyUsageClientAuth}}
 
 func c15PEM(der []byte) []byte {
 	return pem.EncodeToMemory(&pem.Block{Type: "CERTIFICATE", Bytes: der})
@@ -35,10 +37,33 @@ func (r *c15Run) opVerify(i int, op sim.Op) {
 	}
 	roots, inters := map[int]bool{}, map[int]bool{}
 	var tampered []byte
+	// one pool member may be configured with a per-certificate constraint callback (AddCertWithConstraint)
+	consT, consPools := -1, 0
+	var cons *c15Cons
+	pc := &c15PoolCons{roots: map[int]*c15Cons{}, inters: map[int]*c15Cons{}}
+	if op.Int(13) > 0 {
+		consT, consPools = c15Mod(op.Int(13)-1, n), c15Mod(op.Int(14), 4)
+		cons = &c15Cons{kind: c15Mod(op.Int(15), 4), param: op.Int(16)}
+		if cons.kind == 1 {
+			cons.param = r.byRaw[string(r.certs[c15Mod(op.Int(16), n)].der)].idx
+		}
+	}
 	// trust anchors are configured out of band; only the bag of intermediates travels
 	build := func(mask int, viaPEM bool, set map[int]bool, transported bool) *smx509.CertPool {
 		pool := smx509.NewCertPool()
 		var pemText []byte
+		// the constrained member goes in first: a pool keeps the first entry of identical certificates
+		if poolBit := 1 + b2iInt(transported); consT >= 0 && consPools&poolBit != 0 && mask>>uint(consT)&1 == 1 && !(consT == tamper && transported) {
+			m := r.certs[consT]
+			pool.AddCertWithConstraint(m.x, r.consCallback(cons))
+			rec := r.byRaw[string(m.der)].idx
+			set[rec] = true
+			if transported {
+				pc.inters[rec] = cons
+			} else {
+				pc.roots[rec] = cons
+			}
+		}
 		for k := 0; k < n; k++ {
 			if mask>>uint(k)&1 == 0 {
 				continue
@@ -77,6 +102,9 @@ func (r *c15Run) opVerify(i int, op sim.Op) {
 		KeyUsages:     c15VerifyEKU[c15Mod(op.Int(8), len(c15VerifyEKU))],
 		DNSName:       op.Str(0),
 	}
+	// a small budget of name-constraint comparisons per candidate certificate (0 = the library default)
+	maxCmp := c15Clamp(op.Int(17), -1, 8)
+	opts.MaxConstraintComparisions = maxCmp
 	if len(opts.DNSName) > 80 {
 		opts.DNSName = ""
 	}
@@ -118,7 +146,11 @@ func (r *c15Run) opVerify(i int, op sim.Op) {
 	c.OutErr("verify", err)
 	c.Out("nchains", []byte{byte(len(chains))})
 	accepted := err == nil
-	c.Abs("verify", len(roots), len(inters), op.Int(3)&3, timeMode, rel(leafRec), c15Mod(op.Int(8), len(c15VerifyEKU)), opts.DNSName != "", tamper >= 0, accepted, len(chains))
+	consAbs := -1
+	if len(pc.roots)+len(pc.inters) > 0 {
+		consAbs = cons.kind*4 + b2iInt(len(pc.roots) > 0) + 2*b2iInt(len(pc.inters) > 0)
+	}
+	c.Abs("verify", len(roots), len(inters), op.Int(3)&3, timeMode, rel(leafRec), c15Mod(op.Int(8), len(c15VerifyEKU)), opts.DNSName != "", tamper >= 0, accepted, len(chains), consAbs, maxCmp)
 	if accepted {
 		c.Hit("probe:verify-accepted")
 	} else {
@@ -180,8 +212,57 @@ func (r *c15Run) opVerify(i int, op sim.Op) {
 			c.Fail(class, i, op.K, "Verify (time %s, %d roots, %d intermediates) returned a chain of %d certificates that the topology model refutes: %s", t.UTC().Format(time.RFC3339Nano), len(roots), len(inters), len(recs), why)
 			return
 		}
+		// pool constraints: the last certificate came from the roots, every other non-leaf one from the intermediates
+		for pos := 1; pos < len(recs); pos++ {
+			asRoot := pos == len(recs)-1
+			if !pc.okAt(asRoot, recs[pos], recs[:pos]) {
+				c.Fail("chain-violates-pool-constraint", i, op.K, "Verify returned a chain of %d certificates through certificate #%d (%q, position %d), which was added to the pool with a constraint callback (%s) that refuses the %d certificates below it", len(recs), recs[pos].idx, recs[pos].cn, pos, cons, pos)
+				return
+			}
+			if pc.has(asRoot, recs[pos]) {
+				c.Hit("probe:chain-through-constrained-member")
+			}
+		}
+		// extended key usage: some requested usage must be permitted by every certificate of the chain
+		if !ekuFree {
+			if !c15EKUCompatible(recs, opts.KeyUsages) {
+				c.Fail("chain-eku-incompatible", i, op.K, "Verify with KeyUsages %v returned a chain of %d certificates in which no requested usage is permitted by every certificate (extended key usages, leaf first: %s)", opts.KeyUsages, len(recs), c15EKUList(recs))
+				return
+			}
+			for _, m := range recs {
+				if len(m.eku) > 0 {
+					c.Hit("probe:eku-compatible-chain-accepted")
+					break
+				}
+			}
+		}
 		if len(recs) >= 3 {
 			c.Hit("probe:chain-with-intermediates")
+		}
+	}
+	if !accepted {
+		var inv x509.CertificateInvalidError
+		if errors.As(err, &inv) && inv.Reason == x509.IncompatibleUsage {
+			c.Hit("probe:eku-mismatch-refused")
+		}
+		if errors.As(err, &inv) && inv.Reason == x509.TooManyConstraints {
+			c.Hit("probe:too-many-constraint-comparisons")
+		}
+	}
+	if maxCmp != 0 {
+		// coverage only: what the default budget says (the budget is not part of the statement: soundness is all that is asserted)
+		o3 := opts
+		o3.MaxConstraintComparisions = 0
+		o3.Roots, o3.Intermediates = build(rootsMask, op.Int(3)&1 == 1, map[int]bool{}, false), build(intersMask, op.Int(3)&2 == 2, map[int]bool{}, true)
+		ch3, err3 := leaf.x.Verify(o3)
+		c.OutErr("verify-default-budget", err3)
+		switch {
+		case err3 == nil && !accepted:
+			c.Hit("probe:comparison-budget-rejects-otherwise-valid")
+		case err3 == nil && len(ch3) > len(chains):
+			c.Hit("probe:comparison-budget-drops-a-chain")
+		default:
+			c.Hit("probe:comparison-budget-no-effect")
 		}
 	}
 	// ---- the same question through the other time path must get the same answer
@@ -211,15 +292,18 @@ func (r *c15Run) opVerify(i int, op sim.Op) {
 		}
 	}
 	if !accepted && tamper < 0 && opts.DNSName == "" && !crowded {
-		plain := c15ModelChains(r.certs, leafRec, roots, inters, t, true, ekuFree)
+		plain := c15ModelChains(r.certs, leafRec, roots, inters, t, true, ekuFree, pc)
 		if plain {
 			c.Fail("valid-chain-rejected", i, op.K, "the model finds a plain chain (all windows contain %s with more than an hour to spare, all issuers CAs with keyCertSign, no constraints) from certificate #%d to a configured root, but Verify fails: %v", t.UTC().Format(time.RFC3339Nano), leafRec.idx, err)
 			return
 		}
-		if c15ExactWindows && c15ExactPathExists(r.certs, leafRec, roots, inters, t, ekuFree) {
+		if c15ExactWindows && c15ExactPathExists(r.certs, leafRec, roots, inters, t, ekuFree, pc, maxCmp != 0) {
 			c.Fail("valid-chain-rejected-at-boundary", i, op.K, "the model finds a genuinely signed path from certificate #%d to a configured root that is valid at %s with every constraint satisfied (validity ends inclusive per RFC 5280 4.1.2.5, path length not exceeded, DNS names inside the permitted and outside the excluded subtrees), but Verify fails: %v", leafRec.idx, t.UTC().Format(time.RFC3339Nano), err)
 			return
 		}
+	}
+	if !accepted && len(pc.roots)+len(pc.inters) > 0 && c15ExactPathExists(r.certs, leafRec, roots, inters, t, ekuFree, nil, false) && !c15ExactPathExists(r.certs, leafRec, roots, inters, t, ekuFree, pc, false) {
+		c.Hit("probe:only-valid-paths-refused-by-constraint")
 	}
 	if accepted {
 		for _, m := range r.certs {
@@ -274,6 +358,7 @@ func (o *c15Obj) probe(b []byte, both bool) (accepted, same bool, perr error) {
 	var tbs, sig []byte
 	var alg x509.SignatureAlgorithm
 	var verr error
+	o.legacy = false
 	switch o.kind {
 	case "cert":
 		x, err := smx509.ParseCertificate(b)
@@ -303,19 +388,45 @@ func (o *c15Obj) probe(b []byte, both bool) (accepted, same bool, perr error) {
 		}
 		tbs, alg, sig = x.RawTBSCertificateRequest, x.SignatureAlgorithm, x.Signature
 		verr = x.CheckSignature()
-	case "crl":
+	case "crl", "crl1":
+		var merr error
 		x, err := smx509.ParseRevocationList(b)
 		if err != nil {
-			return false, false, err
-		}
-		tbs, alg, sig = x.RawTBSRevocationList, x.SignatureAlgorithm, x.Signature
-		if o.gated {
-			verr = x.CheckSignatureFrom(o.issuer.x)
-			if verr != nil && both {
+			if o.kind == "crl" {
+				return false, false, err
+			}
+			merr = err
+		} else {
+			tbs, alg, sig = x.RawTBSRevocationList, x.SignatureAlgorithm, x.Signature
+			if o.gated {
+				verr = x.CheckSignatureFrom(o.issuer.x)
+				if verr != nil && both {
+					verr = o.issuer.x.CheckSignature(alg, tbs, sig)
+				}
+			} else {
 				verr = o.issuer.x.CheckSignature(alg, tbs, sig)
 			}
-		} else {
-			verr = o.issuer.x.CheckSignature(alg, tbs, sig)
+		}
+		if o.kind == "crl1" && (merr != nil || verr != nil) {
+			// a list made by the deprecated CreateCRL may also reach a recipient that uses the deprecated parser and check
+			cl, err := smx509.ParseCRL(b)
+			if err != nil {
+				if merr != nil {
+					return false, false, merr
+				}
+				break
+			}
+			if cl2, err2 := smx509.ParseDERCRL(b); err2 != nil || !bytes.Equal(cl2.TBSCertList.Raw, cl.TBSCertList.Raw) {
+				return false, false, fmt.Errorf("ParseCRL and ParseDERCRL disagree: %v", err2)
+			}
+			if lerr := o.issuer.x.CheckCRLSignature(cl); lerr == nil {
+				o.legacy = true
+				same = cl.SignatureAlgorithm.Algorithm.Equal(o.oid) && bytes.Equal(cl.TBSCertList.Raw, o.tbs) && bytes.Equal(cl.SignatureValue.RightAlign(), o.sig)
+				return true, same, nil
+			}
+			if merr != nil {
+				return false, false, nil
+			}
 		}
 	}
 	same = alg == o.alg && bytes.Equal(tbs, o.tbs) && bytes.Equal(sig, o.sig)
@@ -339,11 +450,12 @@ func (r *c15Run) judgeAltered(i int, op sim.Op, o *c15Obj, pos int, x byte, both
 		c.Hit("probe:altered-" + c15RegionNames[region] + "-signature-failure")
 		return
 	}
-	if region == 2 && same && (o.kind == "csr" || o.kind == "cfca") {
+	if region == 2 && same && (o.kind == "csr" || o.kind == "cfca" || (o.kind == "crl1" && o.legacy)) {
 		// a request has no inner copy of the algorithm identifier; the library ignores the parameters
 		// field of PKCS#1 v1.5 / ECDSA / SM2 identifiers, so e.g. another tag on the NULL decodes to
 		// the identical algorithm. Certificates and revocation lists get no such allowance: their
 		// outer identifier must equal the signed inner one byte for byte.
+		// (the same holds for the deprecated ParseCRL + CheckCRLSignature pair, which reads the algorithm from the outer identifier only)
 		c.Hit("probe:benign-envelope-alteration")
 		return
 	}
